@@ -271,16 +271,43 @@ def diff(a, b):
     return {k: (a[k], b[k]) for k in a if a[k] != b.get(k)}
 
 
+class SourceRejected(Exception):
+    """The scenario source could not be turned into a Scenario object (the
+    loader rejected a document / the generator raised).  That is owned by C17
+    resp. C15; checks that quantify over scenarios skip the case and count it."""
+
+    def __init__(self, owner, msg):
+        super().__init__(f"{owner}: {msg}")
+        self.owner = owner
+
+
+def _scenario(fn, owner):
+    import sys
+    import os
+    from . import common
+    try:
+        return fn()
+    except Exception as e:
+        tb = sys.exc_info()[2]
+        last = tb
+        while last.tb_next is not None:
+            last = last.tb_next
+        f = os.path.abspath(last.tb_frame.f_code.co_filename)
+        if f.startswith(os.path.join(common.REPO, "nasim") + os.sep):
+            raise SourceRejected(owner, f"{type(e).__name__}: {str(e)[:200]}")
+        raise
+
+
 def build_harness(source, modes=None):
     kind = source["kind"]
     if kind == "doc":
         doc = source["doc"]
         spec = M.Spec.from_doc(doc)
-        scn = sources.scenario_from_doc(doc, flow=source.get("flow"))
+        scn = _scenario(lambda: sources.scenario_from_doc(doc, flow=source.get("flow")), "C17")
     elif kind == "shipped":
-        spec, scn, _ = sources.shipped_case(source["name"])
+        spec, scn, _ = _scenario(lambda: sources.shipped_case(source["name"]), "C17")
     elif kind == "gen":
-        spec, scn = sources.generated_case(source["params"])
+        spec, scn = _scenario(lambda: sources.generated_case(source["params"]), "C15")
     else:
         raise ValueError(kind)
     return Harness(spec, scn, modes, tag=kind)
